@@ -16,6 +16,8 @@ import traceback
 HERE = os.path.dirname(os.path.dirname(os.path.abspath(__file__)))
 REPO = os.environ.get("GBIGSMILES_REPO", "/repo")
 EXIT_OK, EXIT_VIOLATION, EXIT_HARNESS = 0, 1, 3
+# runs against another checkout (self-tests with seeded changes) never touch the committed evidence
+OUT = HERE if os.path.realpath(REPO) == "/repo" else os.environ.get("VERIF_SCRATCH_OUT", "/tmp/verif-scratch-out")
 
 
 def jsonable(x, depth=0):
@@ -233,7 +235,7 @@ def run_check(check_name, tier="quick", jobs=None, only=None):
     known_hits = {}
     harness_errors = []
     seen_sig = {}
-    os.makedirs(os.path.join(HERE, "replays", prop), exist_ok=True)
+    os.makedirs(os.path.join(OUT, "replays", prop), exist_ok=True)
     for c in candidates:
         sig = c["signature"]
         if sig in seen_sig:
@@ -241,7 +243,7 @@ def run_check(check_name, tier="quick", jobs=None, only=None):
             continue
         blob = json.dumps(c, sort_keys=True)
         h = hashlib.sha256(blob.encode()).hexdigest()[:12]
-        path = os.path.join(HERE, "replays", prop, f"{check_name}-{h}.json")
+        path = os.path.join(OUT, "replays", prop, f"{check_name}-{h}.json")
         with open(path, "w") as fh:
             json.dump({"check": check_name, **c}, fh, indent=1)
         ok, out = replay_file(path)
@@ -312,8 +314,8 @@ def run_check(check_name, tier="quick", jobs=None, only=None):
     }
     if hasattr(mod, "finish"):
         mod.finish(evidence, results, tier)
-    os.makedirs(os.path.join(HERE, "evidence"), exist_ok=True)
-    with open(os.path.join(HERE, "evidence", f"{prop}.json"), "w") as fh:
+    os.makedirs(os.path.join(OUT, "evidence"), exist_ok=True)
+    with open(os.path.join(OUT, "evidence", f"{prop}.json"), "w") as fh:
         json.dump(jsonable(evidence), fh, indent=1)
 
     # report
